@@ -175,6 +175,13 @@ Theorem C07_reported_entry : forall r, e_grade (to_entry r) = sr_grade r /\ e_ok
   e_msg (to_entry r) = format_msg (sr_msg r).
 Proof. exact to_entry_spec. Qed.
 
+(* answers written as a string: one list (the pieces of the string) at full credit; a blank piece is refused when missing_error is on *)
+Theorem C07_inferred_answers : forall c s,
+  (c_missing_error c = true /\ (exists it, In it (split (c_delim c) s) /\ is_blank it = true) /\ infer_flat c s = inr ErrConfig)
+  \/ ((c_missing_error c = false \/ Forall (fun it => is_blank it = false) (split (c_delim c) s))
+      /\ infer_flat c s = inl [mkAnswer [split (c_delim c) s] 1 []]).
+Proof. exact infer_flat_spec. Qed.
+
 (* ---------------- one level of nesting ---------------- *)
 Theorem C07_nested_grade_formula : forall A (cr : A -> str -> res sres) co ci answers s r,
   valid_nested A cr answers -> nested_check cr solveZ co ci answers s = inl r ->
